@@ -176,6 +176,10 @@ func (fr *Frame) call(site ssa.Instruction, c *ssa.CallCommon, st *State, reach 
 	if ce.fn != nil && len(ce.fn.Blocks) > 0 && fr.canInline(ce.fn) {
 		vc.CalleesUsed[ce.name] = "inlined"
 		if res, ok := fr.inline(ce, c, st, reach); ok {
+			if v, isv := site.(*ssa.Call); isv && len(fr.lastExitClos) == 1 && fr.lastExitClos[0] != nil {
+				fr.clos[v] = fr.lastExitClos[0]
+			}
+			fr.lastExitClos = nil
 			return res
 		}
 	}
@@ -435,6 +439,7 @@ func (fr *Frame) inline(ce callee, c *ssa.CallCommon, st *State, reach *string) 
 	}
 	*st = *ex.st
 	*reach = ex.reach
+	fr.lastExitClos = ex.clos
 	return ex.vals, true
 }
 
@@ -552,6 +557,14 @@ func (fr *Frame) applyContract(site ssa.Instruction, k *FuncContract, ce callee,
 		}
 		vc.oblige("requires", nm, rq.Src, *reach, g, site.Pos(), rq.Claimed)
 	}
+	if fr.spawning {
+		// go statement: only the spawn-time ghost code of the contract takes effect here
+		env.cur = st
+		for _, gs := range k.SpawnSets {
+			env.applyGhostSet(gs, st)
+		}
+		return nil
+	}
 	// results (created first so that modifies items may mention them, e.g. fields(result))
 	sig := c.Signature()
 	var res []string
@@ -653,9 +666,10 @@ func (fr *Frame) goStmt(x *ssa.Go, st *State, reach *string) {
 	// a spawned function with a contract: its requires must hold at the spawn
 	// point; its effects happen concurrently (not assumed here).
 	if k := vc.DB.Funcs[ce.name]; k != nil {
-		saved := st.clone()
 		r := *reach
-		fr.applyContract(x, k, ce, x.Common(), saved, &r)
+		fr.spawning = true
+		fr.applyContract(x, k, ce, x.Common(), st, &r)
+		fr.spawning = false
 	}
 	if _, ok := vc.DB.Ghosts["global:spawned"]; ok {
 		hv := vc.heapVar("Gh!spawned", "Int")
@@ -1012,7 +1026,15 @@ func (fr *Frame) escapeArgs(c *ssa.CallCommon, st *State) {
 		case *types.Slice:
 			fr.vc.markEscaped(st, fr.val(a))
 		case *types.Pointer:
-			fr.vc.markEscapedRef(st, fr.val(a))
+			// struct fields live in per-field arrays that libframe treats by type;
+			// only cells (pointers to non-aggregate values) need an escape bit
+			switch a.Type().Underlying().(*types.Pointer).Elem().Underlying().(type) {
+			case *types.Struct:
+			case *types.Array:
+				fr.vc.markEscapedBase(st, fr.val(a))
+			default:
+				fr.vc.markEscapedRef(st, fr.val(a))
+			}
 		}
 	}
 }
